@@ -30,17 +30,25 @@ func harnessDir() string {
 }
 
 // Build compiles the production-tag episode binary into $VERIF_WORK (once).
-func Build() (string, error) {
+func Build() (string, error) { return build(false) }
+
+func build(race bool) (string, error) {
 	w := os.Getenv("VERIF_WORK")
 	if w == "" {
 		return "", fmt.Errorf("VERIF_WORK is not set")
 	}
 	p := filepath.Join(w, "c12prod")
+	if race {
+		p += "-race"
+	}
 	if _, err := os.Stat(p); err == nil {
 		return p, nil
 	}
 	tmp := fmt.Sprintf("%s.%d.tmp", p, os.Getpid())
 	args := []string{"build", "-tags", "verif"}
+	if race {
+		args = append(args, "-race")
+	}
 	if mf := os.Getenv("VERIF_MODFILE"); mf != "" {
 		args = append(args, "-modfile="+mf)
 	}
@@ -120,8 +128,20 @@ func RunWeekRot(r *ev.Result, b run.Batch, seed int64, prop string, n int) {
 	runEpisodes(r, b, seed, sc, prop+":")
 }
 
+// RunRace runs the given scenarios with the episode binary built with -race (production build under
+// the race detector: the code no -tags test run compiles). Every report whose two stacks lie in the
+// repository's packages is a violation of C13 (race:production-build:<top frames>); nothing else of the
+// episode is reported here.
+func RunRace(r *ev.Result, b run.Batch, seed int64, scenarios []string) {
+	raceMode = true
+	defer func() { raceMode = false }()
+	runEpisodes(r, b, seed, scenarios, "C13-race-only:")
+}
+
+var raceMode bool
+
 func runEpisodes(r *ev.Result, b run.Batch, seed int64, scenarios []string, only string) {
-	bin, err := Build()
+	bin, err := build(raceMode)
 	if err != nil {
 		r.Inconc(err.Error())
 		return
@@ -159,11 +179,26 @@ func runEpisodes(r *ev.Result, b run.Batch, seed int64, scenarios []string, only
 			}
 			cmd.Env = append(cmd.Env, kv)
 		}
+		if raceMode {
+			cmd.Env = append(cmd.Env, "GORACE=halt_on_error=0 log_path="+filepath.Join(work, "race"))
+		}
 		var so, se bytes.Buffer
 		cmd.Stdout, cmd.Stderr = &so, &se
 		rerr := cmd.Run()
 		timedOut := ctx.Err() != nil
 		cancel()
+		if raceMode {
+			n := 0
+			for _, rr := range run.ParseRaceLogs(work) {
+				if strings.Contains(rr.Key, "verifharness") && !strings.Contains(rr.Text, "gca-backend/server.") && !strings.Contains(rr.Text, "gca-backend/glow.") {
+					continue // a race inside the episode program itself would be a harness bug, not a finding
+				}
+				n++
+				r.Violationf("race:production-build:"+rr.Key, map[string]interface{}{"scenario": sc, "seed": es, "report": rr.Text}, "data race reported by the Go race detector in the production build (scenario %s): %s", sc, rr.Key)
+			}
+			r.Count("prodwt.race_episodes", 1)
+			r.Count("prodwt.race_reports", int64(n))
+		}
 		os.RemoveAll(work)
 		r.Eval(1)
 		var events []map[string]interface{}
